@@ -4,6 +4,7 @@
 #include "env.hpp"
 #include "sched.h"
 #include <pthread.h>
+#include <cstdint>
 #include <cstdio>
 #include <cstdlib>
 #include <exception>
@@ -29,14 +30,33 @@ struct WorkerArg {
     int task_id;
     int tid;
     int team;
+    int team_id;
     WorkerRecord *rec;
 };
+
+#if defined(__SANITIZE_THREAD__)
+extern "C" void __tsan_acquire(void *addr);
+extern "C" void __tsan_release(void *addr);
+#define SIM_TSAN_ACQUIRE(p) __tsan_acquire(p)
+#define SIM_TSAN_RELEASE(p) __tsan_release(p)
+#else
+#define SIM_TSAN_ACQUIRE(p) ((void) 0)
+#define SIM_TSAN_RELEASE(p) ((void) 0)
+#endif
+
+// Synchronisation objects whose only purpose is to carry the happens-before edges real OpenMP provides at barriers and
+// critical sections (ThreadSanitizer flavour); the blocking itself is done by the uninstrumented scheduler.
+char g_barrier_sync[256];
+char g_lock_sync[64];
+unsigned g_single_claimed[256];
 
 void *worker_main(void *p) {
     auto *a = static_cast<WorkerArg *>(p);
     sim_task_begin(a->task_id);
     t_ctx.team_tid = a->tid;
     t_ctx.team_size = a->team;
+    t_ctx.team_id = a->team_id;
+    t_ctx.single_seen = 0;
     t_ctx.yield_ctr = 0;
     t_ctx.rec = a->rec ? &a->rec->points : nullptr;
     try {
@@ -95,6 +115,7 @@ void __wrap_GOMP_parallel(void (*fn)(void *), void *data, unsigned num_threads, 
         return;
     }
 
+    __atomic_store_n(&g_single_claimed[region % 256], 0u, __ATOMIC_RELEASE);
     // Workers are created per region (never pooled) so that the fork/join edges of OpenMP exist for ThreadSanitizer.
     std::vector<WorkerArg> args(granted);
     std::vector<pthread_t> th(granted);
@@ -113,7 +134,7 @@ void __wrap_GOMP_parallel(void (*fn)(void *), void *data, unsigned num_threads, 
     pthread_attr_setstacksize(&attr, 1 << 20);
     for (unsigned t = 0; t < granted; ++t) {
         ids[t] = sim_task_register();
-        args[t] = WorkerArg{fn, data, ids[t], (int) t, (int) granted,
+        args[t] = WorkerArg{fn, data, ids[t], (int) t, (int) granted, (int) (region % 256),
                             g_record_points ? &g_worker_records[rec_base + t] : nullptr};
         if (pthread_create(&th[t], &attr, worker_main, &args[t]) != 0) {
             std::fprintf(stderr, "omp_shim: pthread_create failed\n");
@@ -125,6 +146,29 @@ void __wrap_GOMP_parallel(void (*fn)(void *), void *data, unsigned num_threads, 
     sim_wait_tasks(ids.data(), (int) granted); // the implicit barrier at the end of the region
     for (unsigned t = 0; t < granted; ++t)
         pthread_join(th[t], nullptr);
+}
+
+// Other OpenMP constructs a parallel region may use. The library itself only needs GOMP_parallel; these keep the
+// simulation faithful (and free of spurious hangs or race reports) for changed code that uses them.
+void __wrap_GOMP_barrier(void) {
+    if (t_ctx.team_tid < 0) return; // orphaned barrier outside a simulated team
+    SIM_TSAN_RELEASE(&g_barrier_sync[t_ctx.team_id]);
+    sim_barrier(t_ctx.team_id, t_ctx.team_size);
+    SIM_TSAN_ACQUIRE(&g_barrier_sync[t_ctx.team_id]);
+}
+void __wrap_GOMP_critical_start(void) { sim_lock(0); SIM_TSAN_ACQUIRE(&g_lock_sync[0]); }
+void __wrap_GOMP_critical_end(void) { SIM_TSAN_RELEASE(&g_lock_sync[0]); sim_unlock(0); }
+void __wrap_GOMP_critical_name_start(void **pptr) { int id = 2 + (int) (((uintptr_t) pptr >> 3) % 60); sim_lock(id); SIM_TSAN_ACQUIRE(&g_lock_sync[id]); }
+void __wrap_GOMP_critical_name_end(void **pptr) { int id = 2 + (int) (((uintptr_t) pptr >> 3) % 60); SIM_TSAN_RELEASE(&g_lock_sync[id]); sim_unlock(id); }
+void __wrap_GOMP_atomic_start(void) { sim_lock(1); SIM_TSAN_ACQUIRE(&g_lock_sync[1]); }
+void __wrap_GOMP_atomic_end(void) { SIM_TSAN_RELEASE(&g_lock_sync[1]); sim_unlock(1); }
+bool __wrap_GOMP_single_start(void) {
+    if (t_ctx.team_tid < 0) return true;
+    // the k-th `single` of the region is executed by the first thread that reaches its k-th encounter
+    unsigned mine = t_ctx.single_seen++;
+    // (atomics: the real runtime claims a `single` with an atomic operation, which is synchronisation, not a race)
+    unsigned expected = mine;
+    return __atomic_compare_exchange_n(&g_single_claimed[t_ctx.team_id], &expected, mine + 1, false, __ATOMIC_ACQ_REL, __ATOMIC_ACQUIRE);
 }
 
 }
